@@ -22,13 +22,18 @@ fn disk_after(events: &[Ev], k: usize) -> Option<&DiskSnap> {
 }
 
 /// Ownership monitors over one log. `stats` gets counts for the evidence.
-pub fn check_ownership(t: &Torrent, o: &Outcome, stats: &mut HashMap<&'static str, u64>) -> Option<Finding> {
+pub fn check_ownership(t: &Torrent, o: &Outcome, stats: &mut HashMap<&'static str, u64>) -> Option<Finding> { check_ownership_with(t, o, stats, None) }
+
+/// `leftover`: name of a piece file the harness put there before the start (right name and
+/// length, wrong bytes - left behind by an earlier, damaged run). It is not something the client
+/// stored; what matters is that the piece is never counted as owned while that is all there is.
+pub fn check_ownership_with(t: &Torrent, o: &Outcome, stats: &mut HashMap<&'static str, u64>, leftover: Option<&str>) -> Option<Finding> {
     let mut prev: Option<Rc<Snapshot>> = None;
     for (k, e) in o.events.iter().enumerate() {
         match &e.kind {
             EvKind::Disk { snap } => {
                 *stats.entry("disk_snapshots").or_default() += 1;
-                if let Some((name, len)) = snap.invalid.first() {
+                if let Some((name, len)) = snap.invalid.iter().find(|x| Some(x.0.as_str()) != leftover) {
                     let known = t.index_of_hash_name(name);
                     return Some(Finding { sig: "C01:stored-piece-not-verified".into(), what: format!("file {} ({} bytes) does not hash to its name / is not a piece of this torrent (index {:?})", name, len, known), at_seq: e.seq });
                 }
@@ -91,7 +96,7 @@ pub fn check_ownership(t: &Torrent, o: &Outcome, stats: &mut HashMap<&'static st
         }
     }
     // final state
-    if let Some((name, len)) = o.final_disk.invalid.first() {
+    if let Some((name, len)) = o.final_disk.invalid.iter().find(|x| Some(x.0.as_str()) != leftover) {
         return Some(Finding { sig: "C01:stored-piece-not-verified".into(), what: format!("at the end: file {} ({} bytes) is not a verified piece", name, len), at_seq: u64::MAX });
     }
     if o.extractor.as_deref().map(|s| s.starts_with("ExtractorDone")).unwrap_or(false) {
@@ -173,8 +178,14 @@ pub fn gen_scenario(r: &mut Rng, seed: u64) -> Scenario {
     // fault on disk: the file name of one piece is occupied by a non-empty directory, so that
     // storing that piece fails at the very last step
     let obstacle = if r.chance(1, 8) { Some(r.usize(n)) } else { None };
-    let desc = json!({"seed": seed, "piece_length": torrent.piece_len, "pieces": n, "failpoints": failpoints.is_some(), "piece_file_name_occupied_by_directory": obstacle, "peers": pdesc});
-    let pre: Option<Box<dyn FnOnce(&std::path::Path)>> = obstacle.map(|i| { let name = torrent.piece_file_name(i); Box::new(move |dir: &std::path::Path| { let d = dir.join(&name); let _ = std::fs::create_dir_all(&d); let _ = std::fs::write(d.join("occupied"), b"x"); }) as Box<dyn FnOnce(&std::path::Path)> });
+    // or: a file with the right name and length and the wrong bytes is lying there already
+    let leftover = if obstacle.is_none() && r.chance(1, 8) { Some(r.usize(n)) } else { None };
+    let desc = json!({"seed": seed, "piece_length": torrent.piece_len, "pieces": n, "failpoints": failpoints.is_some(), "piece_file_name_occupied_by_directory": obstacle, "damaged_piece_file_left_from_an_earlier_run": leftover.map(|i| torrent.piece_file_name(i)), "peers": pdesc});
+    let pre: Option<Box<dyn FnOnce(&std::path::Path)>> = match (obstacle, leftover) {
+        (Some(i), _) => { let name = torrent.piece_file_name(i); Some(Box::new(move |dir: &std::path::Path| { let d = dir.join(&name); let _ = std::fs::create_dir_all(&d); let _ = std::fs::write(d.join("occupied"), b"x"); }) as Box<dyn FnOnce(&std::path::Path)>) }
+        (None, Some(i)) => { let name = torrent.piece_file_name(i); let len = torrent.piece_len_of(i); Some(Box::new(move |dir: &std::path::Path| { let _ = std::fs::write(dir.join(&name), vec![0x5Au8; len]); }) as Box<dyn FnOnce(&std::path::Path)>) }
+        _ => None,
+    };
     Scenario { cfg: SimCfg { torrent, peers, tracker: vec![], failpoints, max_virtual_ms: 60_000, stop_on_extract: true, linger_ms: 3_000, disk_on: disk_on_ownership, seed, pre, tracker_fn: None, driver: None }, desc }
 }
 
@@ -208,7 +219,8 @@ pub fn run(ctx: &Ctx) -> Report {
             continue;
         }
         let mut stats = HashMap::new();
-        let f = check_ownership(&t, &o, &mut stats).or_else(|| check_invariants(&o).filter(|i| i.sig.starts_with("C12:owned-piece-lost")).map(|i| Finding { sig: "C01:owned-piece-lost".into(), what: i.what, at_seq: i.at_seq }));
+        let leftover_name = desc["damaged_piece_file_left_from_an_earlier_run"].as_str().map(|x| x.to_string());
+        let f = check_ownership_with(&t, &o, &mut stats, leftover_name.as_deref()).or_else(|| check_invariants(&o).filter(|i| i.sig.starts_with("C12:owned-piece-lost")).map(|i| Finding { sig: "C01:owned-piece-lost".into(), what: i.what, at_seq: i.at_seq }));
         for (k2, v) in &stats { rep.count(k2, *v); }
         if o.extractor.is_some() { rep.count("scenarios_completed", 1); }
         match f {
